@@ -68,24 +68,29 @@ def make_world(rng):
     """files, rule pool, inputs, macro docs."""
     files = {}
     targets = sorted({rng.randrange(0x1000, 0x6000) for _ in range(5)} | {0x10, 0x4040})
+    # where a user keeps things: sub-directories, spaces, non-ASCII (the suffixes .s/.o are kept: the
+    # harness tells listings from objects by them)
+    d_in = rng.choice(["", "", "inputs/sub dir/", "d\u00e9p\u00f4t/"])
+    d_rules = rng.choice(["", "", "my rules/", "r/u/l/"])
+    d_mac = rng.choice(["", "", "mac ros/"])
     listings = []
     for i in range(rng.randrange(2, 4)):
         text, _ins = gen.gen_listing(rng, n=rng.randrange(10, 40), branch_targets=targets)
-        files[f"a{i}.s"] = text
-        listings.append(f"a{i}.s")
+        files[f"{d_in}a{i}.s"] = text
+        listings.append(f"{d_in}a{i}.s")
     binaries = []
     binmeta = {}
     for j in range(rng.choice((1, 2, 2))):
         elf, meta = _two_section_object(rng)
         if elf is None:
             continue
-        files[f"b{j}.o"] = elf
-        binaries.append(f"b{j}.o")
-        binmeta[f"b{j}.o"] = meta
+        files[f"{d_in}b{j}.o"] = elf
+        binaries.append(f"{d_in}b{j}.o")
+        binmeta[f"{d_in}b{j}.o"] = meta
     pool = []
 
     def add(family, variant, doc, pref, typ="assembly", macros=None, raw=None, stage=None):
-        rel = f"r_{family}_{len(pool)}.yaml"
+        rel = f"{d_rules}r_{family}_{len(pool)}.yaml"
         files[rel] = raw if raw is not None else gen.dump_yaml(doc)
         pool.append({"rel": rel, "family": family, "variant": variant, "pref": pref, "type": typ, "macros": macros, "stage": stage})
 
@@ -199,31 +204,31 @@ def make_world(rng):
                 if extra:
                     ms += extra
                 return {"macros": ms}
-            macro_docs["m_ok.yaml"] = mdoc(body_ok, [{"name": "@unused", "pattern": "nop"}])
-            macro_docs["m_bad.yaml"] = mdoc(body_bad)
-            macro_docs["m_args.yaml"] = {"macros": [{"name": "@pm", "args": ["marg1"], "pattern": [{"$or": [{"mov": ["marg1"]}, {"push": ["marg1"]}, {"pop": ["marg1"]}]}]}]}
+            macro_docs[d_mac + "m_ok.yaml"] = mdoc(body_ok, [{"name": "@unused", "pattern": "nop"}])
+            macro_docs[d_mac + "m_bad.yaml"] = mdoc(body_bad)
+            macro_docs[d_mac + "m_args.yaml"] = {"macros": [{"name": "@pm", "args": ["marg1"], "pattern": [{"$or": [{"mov": ["marg1"]}, {"push": ["marg1"]}, {"pop": ["marg1"]}]}]}]}
             for rel, d in macro_docs.items():
                 files[rel] = gen.dump_yaml(d)
             pat = [items[0], "@mm", items[2]]
-            add("macro", "cli_ok", {"pattern": copy.deepcopy(pat)}, li, macros=["m_ok.yaml"])
-            add("macro", "cli_bad", {"pattern": copy.deepcopy(pat)}, li, macros=["m_bad.yaml"])
-            add("macro", "cli_ok_bad", {"pattern": copy.deepcopy(pat)}, li, macros=["m_ok.yaml", "m_bad.yaml"])
-            add("macro", "cli_bad_ok", {"pattern": copy.deepcopy(pat)}, li, macros=["m_bad.yaml", "m_ok.yaml"])
-            add("macro", "infile_ok", {"macros": macro_docs["m_ok.yaml"]["macros"], "pattern": copy.deepcopy(pat)}, li)
-            add("macro", "infile_bad", {"macros": macro_docs["m_bad.yaml"]["macros"], "pattern": copy.deepcopy(pat)}, li)
-            add("macro", "args_rax_rbx", {"pattern": [{"@pm": None, "marg1": "rax"}, {"$not": ["fxsave"]}, {"@pm": None, "marg1": "rbx"}]}, li, macros=["m_args.yaml"])
-            add("macro", "args_rbx_rax", {"pattern": [{"@pm": None, "marg1": "rbx"}, {"$not": ["fxsave"]}, {"@pm": None, "marg1": "rax"}]}, li, macros=["m_args.yaml"])
+            add("macro", "cli_ok", {"pattern": copy.deepcopy(pat)}, li, macros=[d_mac + "m_ok.yaml"])
+            add("macro", "cli_bad", {"pattern": copy.deepcopy(pat)}, li, macros=[d_mac + "m_bad.yaml"])
+            add("macro", "cli_ok_bad", {"pattern": copy.deepcopy(pat)}, li, macros=[d_mac + "m_ok.yaml", d_mac + "m_bad.yaml"])
+            add("macro", "cli_bad_ok", {"pattern": copy.deepcopy(pat)}, li, macros=[d_mac + "m_bad.yaml", d_mac + "m_ok.yaml"])
+            add("macro", "infile_ok", {"macros": macro_docs[d_mac + "m_ok.yaml"]["macros"], "pattern": copy.deepcopy(pat)}, li)
+            add("macro", "infile_bad", {"macros": macro_docs[d_mac + "m_bad.yaml"]["macros"], "pattern": copy.deepcopy(pat)}, li)
+            add("macro", "args_rax_rbx", {"pattern": [{"@pm": None, "marg1": "rax"}, {"$not": ["fxsave"]}, {"@pm": None, "marg1": "rbx"}]}, li, macros=[d_mac + "m_args.yaml"])
+            add("macro", "args_rbx_rax", {"pattern": [{"@pm": None, "marg1": "rbx"}, {"$not": ["fxsave"]}, {"@pm": None, "marg1": "rax"}]}, li, macros=[d_mac + "m_args.yaml"])
             add("macro", "nomacro_same_pattern", {"pattern": [items[0], body_ok, items[2]]}, li)
             # layered: a library macro whose body refers to a macro every rule defines for itself
-            macro_docs["m_layer.yaml"] = {"macros": [{"name": "@outer", "pattern": [{"$or": ["@inner", rng.choice(rules.DECOY_MN)]}]},
+            macro_docs[d_mac + "m_layer.yaml"] = {"macros": [{"name": "@outer", "pattern": [{"$or": ["@inner", rng.choice(rules.DECOY_MN)]}]},
                                                      {"name": "@outer2", "pattern": [{"$and": [items[0], "@inner"]}]}]}
-            files["m_layer.yaml"] = gen.dump_yaml(macro_docs["m_layer.yaml"])
+            files[d_mac + "m_layer.yaml"] = gen.dump_yaml(macro_docs[d_mac + "m_layer.yaml"])
             def inner(body):
                 return {"name": "@inner", "pattern": body if isinstance(body, str) else [body]}
             alt = _window_items(rng, dec, 1, substr=True, with_ops_p=0.0)
             for vname, body in (("layer_ok", body_ok), ("layer_bad", body_bad), ("layer_alt", (alt or [body_bad])[0])):
-                add("macro", vname, {"macros": [inner(body)], "pattern": [items[0], "@outer", items[2]]}, li, macros=["m_layer.yaml"])
-                add("macro", vname + "2", {"macros": [inner(body)], "pattern": ["@outer2", items[2]]}, li, macros=["m_layer.yaml"])
+                add("macro", vname, {"macros": [inner(body)], "pattern": [items[0], "@outer", items[2]]}, li, macros=[d_mac + "m_layer.yaml"])
+                add("macro", vname + "2", {"macros": [inner(body)], "pattern": ["@outer2", items[2]]}, li, macros=[d_mac + "m_layer.yaml"])
 
     # ---- plain rules built with the full feature mix
     for li in listings:
